@@ -138,5 +138,37 @@ fn setup_run_path(
     Ok(run_path)
 }
 //!end
+
+// ---- store_run_output: the result document of a run ----
+// the document type is of no interest here (serde_json::to_writer is generic in it)
+pub struct RunOutput { pub x: u8 }
+#[verifier::external_body] pub fn io_to_generic(e: std::io::Error) -> (r: MonorailError) ensures r is Generic { unimplemented!() }
+//!fn src/app/run.rs store_run_output rules=R10,R12,R17 props=C12
+fn store_run_output(run_output: &RunOutput, run_path: &path::Path, Tracked(w): Tracked<&mut World>) -> ⟦(res: ⟧Result<(), MonorailError>⟦)⟧
+@    requires
+@        // the slot's result file is not the run pointer (different directories of the output tree)
+@        recoverable(*old(w)), path_join(run_path@, result::RESULT_OUTPUT_FILE_NAME@) != old(w).ptr,
+@    ensures
+@        // C12: after a successful store the slot's result file holds exactly the encoding of THIS run's output - whatever the slot
+@        // held before - so `result show` of this slot decodes the run that was just executed
+@        res is Ok ==> final(w).fs.dom().contains(path_join(run_path@, result::RESULT_OUTPUT_FILE_NAME@))
+@            && final(w).fs[path_join(run_path@, result::RESULT_OUTPUT_FILE_NAME@)] == zstd_frame(json_enc(*run_output)), // [C12]
+@        // nothing else on disk is touched (the run pointer stays recoverable: it still names the previous run until Run::save)
+@        forall|q: Seq<char>| q != path_join(run_path@, result::RESULT_OUTPUT_FILE_NAME@) ==> (final(w).fs.dom().contains(q) == old(w).fs.dom().contains(q) && final(w).fs[q] == old(w).fs[q]), // [C13]
+@        recoverable(*final(w)),
+{
+    let run_result_file = fs::OpenOptions::new()
+        .create(true)
+        .write(true)
+        .truncate(true)
+        .open(run_path.join(result::RESULT_OUTPUT_FILE_NAME), Tracked(w))
+        .map_err(io_to_generic)?;
+    let bw = iow::BufWriter::new(run_result_file);
+    let mut encoder = zstdw::Encoder::new(bw, 3)?;
+    to_writer_enc(&mut encoder, run_output)?;
+    encoder.finish(Tracked(w))?;
+    Ok(())
+}
+//!end
 } // verus!
 fn main() {}
